@@ -2,10 +2,11 @@
    oracles of this property rest on, regenerated from /repo on every run, equal the reviewed ones:
      - group wiring (which output feeds which input, as OpenMDAO resolves it) of the canonical models of: AeroPoint
      - unit contract (declared units of every input / output) of the classes in: aerodynamics
-   An edit that re-wires a group or drops / changes a unit in these areas breaks the obligation; the oracles of the property
-   then look for the failing input. *)
+     - option defaults of the classes in: aerodynamics
+   An edit that re-wires a group, drops / changes a unit or changes a default in these areas breaks the obligation; the oracles of
+   the property then look for the failing input. *)
 From Coq Require Import String List Bool.
-From OAS Require Import Wiring WiringReviewed IOUnits IOUnitsReviewed Tie_wiring_AeroPoint Tie_units_aerodynamics.
+From OAS Require Import Wiring WiringReviewed IOUnits IOUnitsReviewed OptionDefaults OptionDefaultsReviewed Tie_wiring_AeroPoint Tie_units_aerodynamics Tie_options_aerodynamics.
 Import ListNotations.
 
 Theorem C05_wiring_of_AeroPoint_models_is_the_reviewed_one :
@@ -17,3 +18,8 @@ Theorem C05_unit_contract_of_aerodynamics_is_the_reviewed_one :
   units_dir_aerodynamics gen_io_units = units_dir_aerodynamics reviewed_io_units /\ units_dir_aerodynamics reviewed_io_units <> [].
 Proof. split; [exact units_aerodynamics_reviewed | exact units_aerodynamics_nonempty]. Qed.
 Print Assumptions C05_unit_contract_of_aerodynamics_is_the_reviewed_one.
+
+Theorem C05_option_defaults_of_aerodynamics_are_the_reviewed_ones :
+  options_dir_aerodynamics gen_option_defaults = options_dir_aerodynamics reviewed_option_defaults /\ options_dir_aerodynamics reviewed_option_defaults <> [].
+Proof. split; [exact options_aerodynamics_reviewed | exact options_aerodynamics_nonempty]. Qed.
+Print Assumptions C05_option_defaults_of_aerodynamics_are_the_reviewed_ones.
